@@ -143,8 +143,8 @@ PROPS['C14'] = dict(
     spec_kinds=['SPEC:C14'], corr_kinds=['DIFF:limit', 'DIFF:exec', 'DIFF:results'],
     case_format=EXEC_FORMAT,
     rule='mock-runner: per-test timeout absent/shorter/longer than the document limit x document limit absent(default)/0/set x position x scripted elapsed time; the runner records the timeout it is handed; '
-         'limits closer than 600 ms are counted inconclusive, never reported. cli: real sleeps (3 s) against 400 ms per-test and 0.8-1 s document limits (margin >= 3x). Non-trivial: >= 2 test cases',
-    manifest=dict(text='Machine-checked theorems (Coq): the limit a test runs under is the minimum of its own timeout and the remaining document limit and the reported kind is the smaller one; a runner timeout at test n yields validated results before n, a timeout failure at n, skipped after n and exit status 50; a timeout is only reported if the runner reported one; default limit pinned against regenerated constants. Tied to /repo by observing the timeout the real StatefulExecutor hands to a mock runner for generated configurations, and by wall-clock CLI runs. Partial: that the subprocess really is interrupted at the limit is runtime behaviour (subprocess::limit_time), exercised only by the CLI runs.',
+         'limits closer than 600 ms are counted inconclusive, never reported. cli: real sleeps (1.6 s / 2.2 s) against 400 ms per-test and 0.8-1 s document limits (margin >= 1.2 s); the slow command would append to a file `late` when its sleep ends, and the harness reads that file only after that moment has passed (is aborted = nothing arrives). Non-trivial: >= 2 test cases',
+    manifest=dict(text='Machine-checked theorems (Coq): the limit a test runs under is the minimum of its own timeout and the remaining document limit and the reported kind is the smaller one; a runner timeout at test n yields validated results before n, a timeout failure at n, skipped after n and exit status 50; a timeout is only reported if the runner reported one; default limit pinned against regenerated constants. Tied to /repo by observing the timeout the real StatefulExecutor hands to a mock runner for generated configurations, and by wall-clock CLI runs. The CLI runs also decide the clause `is aborted`: a command that ran into its limit must not go on executing after scrut has reported the timeout (observed through a file it would write later). Partial: that the subprocess really is interrupted at the limit is runtime behaviour (subprocess::limit_time, kill), exercised only by the CLI runs.',
                   technique='Coq proof (minimum selection + executor state machine) + mock-runner observation of effective limits + wall-clock CLI runs',
                   note='Partial for the wall-clock half: interruption of the child at the limit is runtime behaviour of the subprocess crate/kernel.'),
     exhaustive={'quick': False, 'thorough': False},
@@ -159,7 +159,7 @@ PROPS['C15'] = dict(
     case_format=EXEC_FORMAT,
     rule='mock-runner: skip codes set per test / per document / default, any position, expected code equal to the skip code or not; the effective skip code the runner sees is compared too. '
          'cli: Markdown (per-process) and Cram (single script, divider exit codes) documents with custom and default codes. Non-trivial: >= 2 test cases',
-    manifest=dict(text='Machine-checked theorems (Coq): a reached test that ends in its effective skip code makes the executor report a skip; then every test of the document is reported skipped and none failed; a skipped result arises only from a skip or after a timeout; a skip always has a cause. Default code pinned against regenerated constants. Tied to /repo by the real StatefulExecutor under a scripted runner (effective codes observed) and by CLI runs through both executors.',
+    manifest=dict(text='Machine-checked theorems (Coq): a reached test that ends in its effective skip code makes the executor report a skip; then every test of the document is reported skipped and none failed; a skipped result arises only from a skip or after a timeout; a skip always has a cause; for Cram (one script, with or without a test case that leaves it early) the document is skipped exactly when a printed divider carries the skip code or the script ends in it. Default code pinned against regenerated constants. Tied to /repo by the real StatefulExecutor under a scripted runner (effective codes observed) and by CLI runs through both executors.',
                   technique='Coq proof over the executor state machine (both executors) + mock-runner and CLI differential runs'),
     exhaustive={'quick': False, 'thorough': False},
     assumptions=['Cram: divider parsing is modelled at the level of per-test exit codes (C13 covers the byte level)'],
@@ -397,7 +397,7 @@ def yaml_streams(tier):
 
 PROPS['C17'] = dict(
     family='line', tags={'Y': 'yaml'},
-    theorems=['C17_quoted_round_trip', 'C17_quoted_clean', 'C17_scalar_round_trip', 'C17_environment_reads_back', 'C17_duration_round_trip', 'C17_one_liner_reads_back'],
+    theorems=['C17_quoted_round_trip', 'C17_quoted_clean', 'C17_scalar_round_trip', 'C17_environment_reads_back', 'C17_duration_round_trip', 'C17_one_liner_reads_back', 'C17_one_liner_inline'],
     streams=yaml_streams,
     spec_kinds=['SPEC:C17'], corr_kinds=['DIFF:one-liner'],
     case_format='Y 1 <test-case configuration: os= kc= to=<secs.nanos> de= sk= sa= wa=<wait timeout> wp=x<hex wait path> env=x<hex name>:x<hex value>,...>|<hex of the one-line form>|<the configuration MarkdownParser reads back from ```scrut {...}>   '
